@@ -249,6 +249,7 @@ Block::transfer_dissimilar(BlockTransfer* transfer) {
   transfer->set_state(BlockTransfer::STATE_ERASED);
   transfer->set_position(0);
   transfer->set_block(NULL);
+  transfer->set_stall(~uint32_t());
 }
 
 void
